@@ -182,8 +182,8 @@ def judge1(mode, src, e, ts):
             return ('invalid', f'expected exactly one element, embedding has {len(hole) if isinstance(hole, list) else "?"}')
         exp = hole[0]
     elif e.kind == 'tail':
-        if hole[0].ifs:
-            return ('invalid', 'fragment attached to the wrapper comprehension')
+        if hole[0].ifs or ast.dump(hole[0]) != ast.dump(_get(t0, e.path)[0]):
+            return ('invalid', 'fragment attached to the wrapper comprehension')        # its conditions, or its iterable ('.y for a in b' continues `_`)
         exp = hole[1:]
     else:
         exp = hole
@@ -284,11 +284,11 @@ def fragments_from(tree, rng):
 
 
 HOSTILE = {
-    'expr': ['a,\n"é"', '"é",\n"ü", "ö"', 'a,\n"é",', '"ключ",\n  ñ', 'a,\nü.é', "'é';", "f('ü', 'ö');", 'ä;', ')+(', 'a),(b', 'a) if (b', 'a, b', 'a,\nb', '*a', '*a,', 'a:b', 'x for x in y', '', '#c', 'a;', 'a\nb', 'yield', 'a := b', '(a', 'a)', 'a # c\n', '\\\na', ' a', 'a if b', '*not a', 'lambda: a, b'],
+    'expr': ['( (a)),\nb', '(\n (a)\n),\nb', '((a)),\nb', '( # c\n(a)),\nb', '( ( (a) ) ),\n(b)', '((a),\n b), c', 'a,\n"é"', '"é",\n"ü", "ö"', 'a,\n"é",', '"ключ",\n  ñ', 'a,\nü.é', "'é';", "f('ü', 'ö');", 'ä;', ')+(', 'a),(b', 'a) if (b', 'a, b', 'a,\nb', '*a', '*a,', 'a:b', 'x for x in y', '', '#c', 'a;', 'a\nb', 'yield', 'a := b', '(a', 'a)', 'a # c\n', '\\\na', ' a', 'a if b', '*not a', 'lambda: a, b'],
     'expr_slice': ['a:b', 'a:b:c, d', '*a', '*not a', '][', 'a][b', ':', '::', 'a,', '', 'x for x in y', 'a:b]=[c'],
     'expr_all': ['a,\n"é"', '*ü,\n"é"', '*a\n ,', '*ab\n  ,', '*a  # c\n ,', '*é\n  ,', '*a,', '*a\n,', '*a', 'a:b', 'a:b:c, d', 'a, b', 'a,\nb', '*a, *b', '*a\n, b', 'x for x in y', '', 'a := b', 'yield', '*not a', '*a\n  ,  # c',
                  '*(a)\n ,', '*a \\\n ,', ')+(', 'a][b', 'a)(b', ':', '*a:b'],
-    'expr_arglike': ['f(a ,\n b)', 'f(a,\n b),', '*f(a,\n b)\n,', '*a', '*not a', 'a, b', 'a=b', '**a', 'x for x in y', ')(', 'a)(b', '', 'a:b'],
+    'expr_arglike': ['( (a)),\nb', '(\n (a)\n),\n*b', 'f(a ,\n b)', 'f(a,\n b),', '*f(a,\n b)\n,', '*a', '*not a', 'a, b', 'a=b', '**a', 'x for x in y', ')(', 'a)(b', '', 'a:b'],
     '_arglikes': ['x=1,\n*b', '  a,\nb, c=1', '        k=1,\n    *s,\n**kw', 'a, b', 'a, *b, k=1, **d', '', 'a)(b', 'a for x in y', '(a for x in y), b', 'k=1, *a', 'a,', '*a, b=c, *d', 'a=1, b', 'a,\n      k=v,\n  *c,\nj=w',
                   '**d, k=1', 'a\n,\nk=1\n,', ')(', 'a, # c\n b=1 # d\n', 'é=1,\n*ü'],
     '_arglike': ['f(a ,\n b)', 'f(a,\n b),', 'k=f(a,\n b)\n,', '*f(a ,\n b)', 'a for x in y', '(a for x in y)', '*a', '**k', 'k=v', 'a, b', 'a=b, c', '', 'a)(b', ')(', '*not a', 'k=x for x in y', 'a := b', 'yield', '(yield)', 'a,', 'k=v,'],
@@ -305,7 +305,7 @@ HOSTILE = {
     'ExceptHandler': ['except: pass', 'except E as e:\n    pass', 'except* E: pass', 'except: pass\nexcept: pass', 'except: pass\nelse: pass', 'finally: pass', '', 'except (A, B): pass',
                       ' except: pass', 'except: pass\nfinally: pass\ntry: pass'],
     '_ExceptHandlers': ['except A: pass\nexcept B: pass', '', 'except: pass\nelse: pass', 'except* A: pass\nexcept* B: pass', 'except A: pass\nexcept* B: pass'],
-    'pattern': ['a,\n"é"', '"é",\n*ü', 'ñ,\n"é",', '"é" |\n"ü"', 'a', '1', 'a | b', '[a, *b]', 'a, b', '*a', '{1: a, **r}', 'C(x, y=1)', 'a as b', '(a)', '', 'a) if (b', 'a): pass\n case (b', 'a if b', '1 + 2j', '-1', 'a.b', '_', '[a]if[b]', 'x]if['],
+    'pattern': ['( (a)),\nb', '(\n (a)\n),\nb', '((a)),\nb', '( ( (a) ) ),\n(b)', 'a,\n"é"', '"é",\n*ü', 'ñ,\n"é",', '"é" |\n"ü"', 'a', '1', 'a | b', '[a, *b]', 'a, b', '*a', '{1: a, **r}', 'C(x, y=1)', 'a as b', '(a)', '', 'a) if (b', 'a): pass\n case (b', 'a if b', '1 + 2j', '-1', 'a.b', '_', '[a]if[b]', 'x]if['],
     'comprehension': ['(x) for a in b', '+ 1 for a in b', '.y for a in b', '[0] for a in b', 'if z else w for a in b', ', q for a in b', 'for a in b', 'for a in b if c', 'async for a in b', 'for a in b for c in d', 'if a', '', 'for a in b]+[c', 'for a, b in c if d if e', 'for a in b,'],
     '_comprehensions': ['.y for a in b', '(x) for a in b', '+ 1 for a in b', '[0] for a in b', 'or z for a in b', 'if q else r for a in b', 'for a in b for c in d', '', 'if x for a in b', 'for a in b] + [c for d in e'],
     '_comprehension_ifs': ['.y if a', '(x) if a', '+ 1 if a', 'or z if a', 'if a if b', '', 'for a in b', 'if a for b in c', 'if a] + [b'],
@@ -511,8 +511,9 @@ def check_fragment(ctx, mode, src, origin):
                 first, last = kids[0], kids[-1]
                 srcb = [l.encode() for l in src.split('\n')]
                 code_end = max(((i + 1, len(l.split(b'#')[0].rstrip())) for i, l in enumerate(srcb) if l.split(b'#')[0].strip()), default=(1, 0))
-                lead_ok = (g.lineno, g.col_offset) == (first.lineno, first.col_offset) or (
-                    g.lineno == first.lineno and g.col_offset < first.col_offset and not srcb[g.lineno - 1][g.col_offset:first.col_offset].strip(b'( \t'))   # the first element's own parentheses
+                # the sequence starts where the fragment's first token starts (the first element with ALL the parentheses of its own, whatever stands between them)
+                ft = next(iter(toks(src, wrapped=True) or []), None)
+                lead_ok = ft is not None and (g.lineno, g.col_offset) == (ft.start[0], len(src.split('\n')[ft.start[0] - 1][:ft.start[1]].encode()))
                 if not lead_ok or (g.end_lineno, g.end_col_offset) < (last.end_lineno, last.end_col_offset) or \
                         ((g.end_lineno, g.end_col_offset) > code_end and "'" not in src and '"' not in src):
                     ctx.violation(f'tree|{mode}|unparenthesized-sequence-span', 'an unparenthesized sequence does not span from its first element to the end of its last one',
